@@ -69,6 +69,8 @@ Big == <<
     MPt(<< <<0, 0>>, <<8, 8>>, <<3, 5>> >>),
     Ln(<<0, 7>>, <<7, 0>>),
     LS(StairLine(140)), Poly(StairRing(70), << Rev(Sq(1, 1, 1)) >>),
+    \* two holes: an L-shaped one listed first whose bounding box covers the square hole in which the small operands land
+    Poly(Sq(0, 0, 12), << Rev(<< <<1, 1>>, <<10, 1>>, <<10, 2>>, <<2, 2>>, <<2, 10>>, <<1, 10>>, <<1, 1>> >>), Rev(Sq(4, 4, 5)) >>),
     \* a snake through every lattice point of 0..40 x 0..25 (1066 vertices with small coordinates: the exact rationals stay in 32 bits)
     LS(Snake(40, 25)),
     \* holed shells that do not fill their bounding box: an operand in the empty corner is outside the polygon, not in a hole
